@@ -72,6 +72,11 @@ def run_shard(spec, acc):
             # two scans of the same tree: one result used at once, the other only after the tree was removed / rewritten
             # or the working directory changed
             lazyscan.late_use_case(rnd, acc, "C15", {})
+            if i % 2 == 1:
+                # the same path, another content (same sizes, same time stamps): the architecture follows the tree, not
+                # what this process scanned there before
+                lazyscan.rescan_after_edit(rnd, acc, "C15", {"edge-missing": "C15", "edge-extra": "C15", "nodes": "C15"})
+                spelling_twins(rnd, acc)
     elif k == "hashseeds":
         hashseeds(spec["seeds"], acc)
     else:
@@ -165,6 +170,47 @@ def after_dead_architectures(rnd, acc, rounds=12):
         del ev, twin
         if r % 3 == 0:
             gc.collect()
+
+
+def spelling_twins(rnd, acc, forced=None):
+    """Two scans of the same tree, the directories once given as plain absolute strings and once in another spelling the
+    caller may use - pathlib.Path objects with '..' components (Path(__file__).parent / ".." / "src"), externals kept or
+    not: equal sets of modules and imports."""
+    from pytestarch import get_evaluable_architecture
+
+    spec = forced["spec"] if forced else trees.random_project(rnd, depth=3, imports_per_file=(1, 3), externals=0.25, name_imports=0.2, extras=False)
+    root = trees.write_tree(spec)
+    try:
+        dirs = [d for d in trees.all_dirs(spec) if d]
+        mp = (forced["mp"] if forced else (rnd.choice(dirs) if dirs and rnd.random() < 0.6 else ""))
+        mp_abs = os.path.join(root, mp) if mp else root
+        name = os.path.basename(root)
+        tops = [d for d in dirs if "/" not in d]
+        for kw in ({}, {"exclude_external_libraries": False}):
+            case = {"kind": "spelling-twins", "spec": spec, "mp": mp, "kw": kw}
+            HUB.case = case
+            get_evaluable_architecture(root, mp_abs, **kw)
+            plain = HUB.scan_events[-1]
+            spellings = {
+                "pathlib-dotdot-root": (Path(root) / os.pardir / name, Path(mp_abs)),
+                "pathlib-dotdot-module": (Path(root), (Path(mp_abs) / os.pardir / os.path.basename(mp_abs)) if mp else Path(root) / os.pardir / name),
+                "pathlib-through-a-child": (Path(root), (Path(root) / tops[0] / os.pardir / mp) if (mp and tops) else Path(root)),
+                "str-dotdot": (os.path.join(root, os.pardir, name), mp_abs),
+            }
+            for label, (r_arg, m_arg) in spellings.items():
+                HUB.case = dict(case, spelling=label)
+                try:
+                    get_evaluable_architecture(r_arg, m_arg, **kw)
+                    tw = HUB.scan_events[-1]
+                except Exception as e:  # noqa: BLE001
+                    HUB.violation("C15", f"scan-depends-on-path-spelling:{label}:raises-{type(e).__name__}", f"the same directories given as {label} raised {type(e).__name__}: {e}", {"mp": mp, "kw": kw})
+                    continue
+                acc.evaluated()
+                acc.count("scans_of_one_tree_under_another_path_spelling")
+                if tw.state != plain.state:
+                    HUB.violation("C15", f"scan-depends-on-path-spelling:{label}", "two scans of the same tree - directories spelled differently - build different architectures", {"mp": mp, "kw": kw, "nodes_diff": sorted(tw.nodes ^ plain.nodes)[:12], "imports_diff": sorted(tw.imps ^ plain.imps)[:12]})
+    finally:
+        trees.remove_tree(root)
 
 
 def histories(rnd, n_inter, acc, sample=False):
@@ -584,6 +630,12 @@ def threads(rnd, rounds, acc):
 
 def replay(case, acc):
     rnd = random.Random(0)
+    if case["kind"] == "spelling-twins":
+        return spelling_twins(rnd, acc, forced=case)
+    if case["kind"] == "rescan-after-edit":
+        from .. import lazyscan
+
+        return lazyscan.rescan_after_edit(rnd, acc, "C15", {"edge-missing": "C15", "edge-extra": "C15", "nodes": "C15"}, forced=case)
     if case["kind"] == "permutation":
         ev = build(case["mods"], [tuple(i) for i in case["imps"]])
         cfg = case["cfg"]
@@ -609,7 +661,7 @@ def replay(case, acc):
 
 def floors(acc, tier):
     why = []
-    for c, n in (("purity_snapshots", 5000), ("history_comparisons", 3000), ("interleavings", 50), ("re_applications", 500), ("evaluations_on_another_architecture", 100), ("layer_rule_reapplied_with_unmentioned_regex_layer", 100), ("enumeration_trees_with_symlinked_package", 5), ("enumeration_trees_with_file_beside_package", 5), ("permuted_anything_rules_with_nested_subjects", 20), ("argument_permutations", 300), ("enumerations_shuffled", 50), ("hash_seed_runs", 8), ("threaded_evaluations", 100), ("scan_results_first_used_after_a_change", 20), ("rule_outcomes_compared_with_a_twin_after_dead_architectures", 500)):
+    for c, n in (("purity_snapshots", 5000), ("history_comparisons", 3000), ("interleavings", 50), ("re_applications", 500), ("evaluations_on_another_architecture", 100), ("layer_rule_reapplied_with_unmentioned_regex_layer", 100), ("enumeration_trees_with_symlinked_package", 5), ("enumeration_trees_with_file_beside_package", 5), ("permuted_anything_rules_with_nested_subjects", 20), ("argument_permutations", 300), ("enumerations_shuffled", 50), ("hash_seed_runs", 8), ("threaded_evaluations", 100), ("scan_results_first_used_after_a_change", 20), ("rule_outcomes_compared_with_a_twin_after_dead_architectures", 500), ("scans_of_one_tree_under_another_path_spelling", 50), ("rescans_after_in_place_edit", 10)):
         if acc.counters[c] < n:
             why.append(f"{c}: only {acc.counters[c]}")
     return why
